@@ -104,7 +104,7 @@ def run(ctx):
     rep.guarded("str-slice", "untrusted str slicing", lambda: rule_str_slice(facts, rep))
     rep.guarded("utf8", "from_utf8_unchecked", lambda: rule_utf8(facts, rep))
     rep.guarded("positive", "verif_harness::positive", lambda: rule_positive(facts, rep))
-    for r, n in (("panic-site", 120), ("coverage", 60), ("allowlist", 1), ("unsafe", 8), ("str-slice", 3), ("utf8", 5), ("positive", 3)):
+    for r, n in (("panic-site", 120), ("coverage", 60), ("allowlist", 1), ("reset", 9), ("guards", 22), ("params", 8), ("unsafe", 8), ("str-slice", 3), ("utf8", 5), ("positive", 3)):
         rep.floor(r, n)
 
 
@@ -349,6 +349,9 @@ def rule_links(facts, rep):
     from rules import C02
     C02.rule_guards(facts, rep)
     C02.rule_params(facts, rep)
+    # `current_subparams <= len`, `intermediate_idx <= 2` and `osc_num_params <= 16` hold at sequence start only because Clear /
+    # OscStart / Params::clear zero them: a counter left stale by an aborted sequence makes `len - current_subparams` underflow
+    C02.rule_reset(facts, rep)
     st = facts.item("anstyle", "anstyle::color::DisplayBuffer", "Struct")
     rep.check("Restricted" in st["vis"] and all("Restricted" in f["vis"] for f in st["variants"][0]["fields"]), "allowlist", st["path"], "private-type-and-fields", "", "")
 
